@@ -12,7 +12,8 @@ import StraxModel.Model.PostOffice
       savers    `components.savers` in dict order: `datatype=numberOfSavers` joined by `,`   (`-` = empty dict)
     answer: `ok <mailbox>;<mailbox>;… # <thread>;<thread>;…`
       mailbox = `key|lazy|max_messages|can_drive bits|thread names joined by ,`   (creation order of the dict)
-      thread  = `name<sub+sub…>{flow_freely}` with sub = `mailboxkey@subscriberIndex` (threads in join order, `main` last)
+      thread  = `name<sub+sub…>{flow_freely}[outputs]` with sub = `mailboxkey@subscriberIndex`; `outputs` = what a
+                `divide_outputs` reader sends into (threads in join order, `main` last)
 
   `c06.po <op>;<op>;…`   (a script against one PostOffice; one answer token per op, then the final state)
       `P:<topics .>:<registered . or ->:<script>`  register_producer; script = `-` | instrs joined by `,`:
@@ -63,7 +64,7 @@ def showWire (net : Net) : String :=
     s!"{m.name}|{if m.lazy then "1" else "0"}|{m.cap}|{String.ofList (m.drive.map fun b => if b then '1' else '0')}|{",".intercalate m.threads}"
   let ths := net.threads.map fun t =>
     let subs := "+".intercalate (t.subs.map fun (i, s) => s!"{mbName i}@{s}")
-    t.name ++ "<" ++ subs ++ ">{" ++ "+".intercalate t.free ++ "}"
+    t.name ++ "<" ++ subs ++ ">{" ++ "+".intercalate t.free ++ "}[" ++ "+".intercalate t.outs ++ "]"
   s!"ok {";".intercalate mbs} # {";".intercalate ths}"
 
 open Strax.Net in
